@@ -1,6 +1,6 @@
 SPECIFICATION TSpec
 CONSTANTS
-  Scenarios = {"local", "remote", "localfar", "contest", "claim", "success", "breach", "coop"}
+  Scenarios = {"local", "remote", "localfar", "contest", "claim", "success", "breach", "coop", "shift", "rshift"}
   MaxCrashes = 99
   F8Fixed = TRUE
   F9Fixed = FALSE
